@@ -87,7 +87,9 @@ class IntervalRegressor(BaseEstimator, RegressorMixin):
             Xr = X[rnd]
             yr = y[rnd]
             sr = sample_weight[rnd] if sample_weight is not None else None
-            return est.fit(Xr, yr, sr)
+            if sr is None:
+                return est.fit(Xr, yr)
+            return est.fit(Xr, yr, sample_weight=sr)
 
         self.estimators_ = Parallel(
             n_jobs=self.n_jobs, verbose=verbose, prefer="threads"
